@@ -248,3 +248,67 @@ Definition count_occ_z (p : Z) (l : list Z) : Z := Z.of_nat (length (filter (Z.e
 Definition strm_dead (s : strm) : bool := st_notified s && negb (st_state s =? c_streamOpened) || st_incb s && st_notified s.
 Definition sess_released (s : sess) : bool :=
   negb (conn_open s) && match bm s with None => true | _ => false end && match qmap s with None => true | _ => false end.
+
+(* ------------------------------------------------------------------------------------------ *)
+(* OpenStream racing Close (session.go OpenStream): the call is two steps for a user thread —   *)
+(*   OChk: IsClosed / IsHealthy check (the shutdown error is returned here when already closed), *)
+(*   OReg: later, under streamLock, `s.streams[id] = stream` —                                   *)
+(* and Close's posted cleanup (LLambda of the base model, its own step) drops the stream table   *)
+(* (`s.streams = nil`) under the same lock.  A layer over the base model: the base steps are     *)
+(* unchanged; a stream registered while the session is open behaves like one that existed from   *)
+(* LOpen (the base model quantifies over any number of them) and is not tracked here; a stream   *)
+(* registered after Close's notification loop but before the cleanup is "late": nobody notified  *)
+(* it, the cleanup closes it with the rest of the table.                                         *)
+(* [fixed] selects the code: true = OReg on a dropped table returns the shutdown error (the       *)
+(* repaired OpenStream); false = it assigns into the nil map and panics (kept for the regression  *)
+(* witness).                                                                                     *)
+(* ------------------------------------------------------------------------------------------ *)
+Inductive olabel := OBase (l : label) | OChk (i : nat) | OReg (i : nat).
+
+Record oworld := {
+  ob : world;
+  opening : list nat;    (* one entry per user thread past OpenStream's check: the session index *)
+  late : list nat;       (* one entry per late-registered, still open stream: the session index *)
+  open_errs : nat;       (* OpenStream calls that returned the shutdown error *)
+  panics : nat }.        (* "assignment to entry in nil map" *)
+
+Definition table_dropped (w : world) (i : nat) : bool :=
+  match nth_error (ss w) i with Some s => cleaned s | None => false end.
+
+Fixpoint remove_one (i : nat) (l : list nat) : option (list nat) :=
+  match l with
+  | [] => None
+  | j :: r => if Nat.eqb i j then Some r
+              else match remove_one i r with Some r' => Some (j :: r') | None => None end
+  end.
+
+Definition ostep (fixed : bool) (w : oworld) (l : olabel) : oworld :=
+  match l with
+  | OBase b =>
+      let b' := step (ob w) b in
+      (* the cleanup closes every stream of the table it drops, the late ones included *)
+      {| ob := b'; opening := opening w; late := filter (fun j => negb (table_dropped b' j)) (late w);
+         open_errs := open_errs w; panics := panics w |}
+  | OChk i =>
+      match nth_error (ss (ob w)) i with
+      | Some s => if sd s
+                  then {| ob := ob w; opening := opening w; late := late w; open_errs := S (open_errs w); panics := panics w |}
+                  else {| ob := ob w; opening := i :: opening w; late := late w; open_errs := open_errs w; panics := panics w |}
+      | None => w
+      end
+  | OReg i =>
+      match remove_one i (opening w), nth_error (ss (ob w)) i with
+      | Some op', Some s =>
+          if cleaned s then                  (* s.streams == nil *)
+            if fixed
+            then {| ob := ob w; opening := op'; late := late w; open_errs := S (open_errs w); panics := panics w |}
+            else {| ob := ob w; opening := op'; late := late w; open_errs := open_errs w; panics := S (panics w) |}
+          else if sd s then                  (* after Close's notification loop, before the cleanup *)
+            {| ob := ob w; opening := op'; late := i :: late w; open_errs := open_errs w; panics := panics w |}
+          else {| ob := ob w; opening := op'; late := late w; open_errs := open_errs w; panics := panics w |}
+      | _, _ => w
+      end
+  end.
+
+Definition orun (fixed : bool) (sch : list olabel) (w : oworld) : oworld := fold_left (ostep fixed) sch w.
+Definition oinit : oworld := {| ob := init; opening := []; late := []; open_errs := O; panics := O |}.
